@@ -829,6 +829,25 @@ func TestC18(t *testing.T) {
 			c.Fail(sig("roundtrip-direct"), wire, fmt.Sprintf("%+v", src), "Marshal -> Unmarshal does not reproduce the value: %s", d)
 			return
 		}
+		// the same message marshalled again with other values: Unmarshal sees the new ones
+		for again := 0; again < 2; again++ {
+			src2 := e.mk()
+			src2.fill(c.R)
+			if p, bad := guard(func() { err = m.Marshal(src2) }); bad || err != nil {
+				c.Fail(sig("marshal-error"), nil, fmt.Sprintf("%+v", src2), "Marshal on a message that was marshalled before: err=%v %s", err, p)
+				return
+			}
+			dst3 := e.mk()
+			if p, bad := guard(func() { err = m.Unmarshal(dst3) }); bad || err != nil {
+				c.Fail(sig("unmarshal-direct"), nil, nil, "Unmarshal after marshalling the same message again: err=%v %s", err, p)
+				return
+			}
+			if d := sameValue(reflect.ValueOf(src2).Elem(), reflect.ValueOf(dst3).Elem(), e.name); d != "" {
+				c.Fail(sig("roundtrip-direct"), nil, fmt.Sprintf("%+v", src2), "a message marshalled, unmarshalled, marshalled again with other values and unmarshalled does not give the new values: %s", d)
+				return
+			}
+			c.Event("roundtrips", 1)
+		}
 		// via the wire
 		rm, err := diam.ReadMessage(bytes.NewReader(wire), e.ctx.Parser)
 		if err != nil {
